@@ -596,6 +596,16 @@ class SpecEval(object):
                 if f == 'forall':
                     return VBool(z3.ForAll([iv], z3.Implies(rng, body)))
                 return VBool(z3.Exists([iv], z3.And(rng, body)))
+            if f == 'all_bytes':
+                var = n.args[0].value
+                iv = z3.String(fresh_name(var))
+                e2 = SpecEnv(e.st, dict(e.env), e.old, e.result, e.exc)
+                e2.env[var] = VStr(iv, 'bytes')
+                if e.old is not None:
+                    o2 = SpecEnv(e.old.st, dict(e.old.env), None, None)
+                    o2.env[var] = VStr(iv, 'bytes')
+                    e2.old = o2
+                return VBool(z3.ForAll([iv], self.as_bool(self.ev(n.args[1], e2), e2)))
             if f == 'all_int':
                 # all_int('k', body): body holds for every integer k
                 var = n.args[0].value
